@@ -6,6 +6,7 @@ import ast
 from engine.defuse import value_sources
 from engine.flow import deref, expand_aliases, dominating_guards, reachable_from_entry, same_name_value
 from .links import check_links
+from engine.flow import returns_of as returns_of_fn
 
 META = {
     "explanation": (
@@ -483,6 +484,46 @@ def check(ctx):
                    "items are validated while the list fills (generator consumed by list.__init__): an error names the index reached" if lazy or in_loop else
                    "all items are validated before any is stored: _get_item_position (index(item) / len(self)) sees an empty list and every "
                    "error is reported at the wrong (or no) index", node=n)
+
+    # ---------------------------------------------------------------- C15.3b' path components are keys, not labels
+    # a field has a key (what attribute access, dotted paths and documents use) and an optional friendly `name` (a label for
+    # help texts): a reference path is built from keys only
+    for fn in an.fns():
+        if fn.name not in ("_ref_path", "ref_path") or fn.node is None:
+            continue
+        for x in ast.walk(fn.node):
+            if isinstance(x, ast.Attribute) and x.attr == "name" and isinstance(x.ctx, ast.Load):
+                ctx.ob("path.components-are-keys", fn, x, False,
+                       "%s builds the reference path from %s -- the field's friendly label, not its key: 'svc.Service Limits[k]' instead of "
+                       "'svc.limits[k]'" % (fn.qualname, ast.unparse(x)), node=x)
+    ctx.ob("path.components-are-keys", model.cls("DictProxy"), "no .name in any _ref_path", True, "reference paths are built from _key only", nontrivial=False)
+    # ... and are computed from the links as they are *now*: a path remembered on the object goes stale when an item moves in its
+    # list (insert / pop / reverse) or an ancestor is attached somewhere else -- none of which assigns anything on this object
+    npath = 0
+    for fn in an.fns():
+        if fn.name != "_ref_path" or fn.node is None or fn.cls is None or not fn.self_name:
+            continue
+        npath += 1
+        stores = [x for x in ast.walk(fn.node) if isinstance(x, (ast.Assign, ast.AugAssign, ast.AnnAssign)) and any(
+            isinstance(t, ast.Attribute) and isinstance(t.value, ast.Name) and t.value.id == fn.self_name
+            for t in (x.targets if isinstance(x, ast.Assign) else [x.target]))]
+        remembered = []
+        for r in returns_of_fn(an, fn):
+            v = r.ast.value
+            if v is None:
+                continue
+            for k, pl in value_sources(fn, v, r):
+                if k == "expr" and isinstance(pl, ast.Attribute) and isinstance(pl.value, ast.Name) and pl.value.id == fn.self_name \
+                        and pl.attr not in ("_key",) and not pl.attr.endswith("_ref_path"):
+                    remembered.append(pl)
+        okl = not stores and not remembered
+        ctx.ob("path.computed-live", fn, (stores or remembered or [fn.node.name])[0], okl,
+               "the path is computed from the live parent / container links on every access" if okl else
+               "%s %s: the path handed out can be one computed earlier, before the item moved in its list or an ancestor was re-attached"
+               % (fn.qualname, "stores into self.%s" % stores[0].targets[0].attr if stores and isinstance(stores[0], ast.Assign) else
+                  "returns the remembered self.%s" % remembered[0].attr if remembered else "keeps state"),
+               node=None)
+    ctx.need(npath >= 2, "no _ref_path accessor found")
 
     # ---------------------------------------------------------------- C15.3c a document value is used as a mapping only after it was tested to be one
     check_document_shape(ctx)
